@@ -5,6 +5,7 @@ TEXTS = [
     '#..meta: length=3\n{}\n', '@@ -1 +1 @@\n-a\n+b', 'é€', 't\r\nu', 'x\r', '\n\rq',
     'ਊa\nb', '﻿q', 'a\x00b', ' z', '\U0001d11e clef', 'ends\n', 'dos\r\n', '   ',
     '\n', '\r\n', 'ĊċĊ', 'tab\there', '    indented\n  less\n', 'a\n\n\n', '﻿',
+    'Summary line\n      \n    code\n', 'a\n \n\t\nb\n',      # lines of blanks only, longer than any indent
     'mixed\r\nthen\nlf\n', 'lf\nthen\r\ncrlf\r\n', 'ഊ਍', 'x' * 130, 'l1\nl2\nl3\nl4\nl5\nl6\nl7\n',
     '\x85next', 'café\n', 'あいう', 'ÿþ', ' ', '\x0b\x0c',
     # code units that contain the bytes of an encoded LF across a character boundary (UTF-16/32, N12)
